@@ -381,10 +381,14 @@ def r3_lifo(ck, rule="C04-R3"):
                     lastb = wl["last_bbs"][0]
                     a = df.operand_expr(fn, s.term["args"][1]) if len(s.term["args"]) > 1 else None
                     from_last = a is not None and df.mentions_deep(fn, a, lambda x: df.is_call(x, "::last"))
+                    from_pop = a is not None and df.mentions_deep(fn, a, lambda x: df.is_call(x, "::pop"))
                     pop_after = any(pb in cfg.reachable_from_after(fn, s.bb) for pb in wl["pop_bbs"])
                     if from_last and pop_after:
                         ok = True
                         detail = "while let Some(x) = v.last() { rollback(x); v.pop() }"
+                    elif from_pop:
+                        ok = True
+                        detail = "the element taken with v.pop() is the one rolled back"
                     else:
                         detail = "last/pop loop, but the rolled-back element is %s" % (df.show(a) if a else "?")
             ck.require(ok, rule, inst, "rollback loop does not undo in LIFO order: %s" % detail, s.where(), ok_detail=detail)
@@ -413,6 +417,16 @@ def r3b_pop_after_rollback(ck, rule="C04-R3"):
             for pb in pops:
                 n += 1
                 r = cfg.reachable(fn, [wl["head"]], disabled=back, blocked=rb)
+                if rb and pb in r:
+                    # pop first, then roll back what was popped: fine when no path from the pop to the next iteration or to a return
+                    # avoids the rollback of that very element
+                    rb_pop = {s.bb for s in cg.out[fid] if s.term is not None and s.callee in reach_abort and s.bb in wl["body"] and
+                              len(s.term["args"]) > 1 and df.mentions_deep(fn, df.operand_expr(fn, s.term["args"][1]), lambda x: df.is_call(x, "::pop"))}
+                    after = cfg.reachable(fn, [sx for sx in fn.succs(pb) if not fn.blocks[sx]["cleanup"]], blocked=rb_pop)
+                    if rb_pop and wl["head"] not in after and not [b for b in cfg.exits(fn) if b in after]:
+                        ck.ok(rule, "pop only after rollback in %s" % fn.id, "the popped element is rolled back on every path that goes on",
+                              fn.where(fn.blocks[pb]["term"]))
+                        continue
                 ck.require(bool(rb) and pb not in r, rule, "pop only after rollback in %s" % fn.id,
                            "a file patch can be popped from the applied stack without having been rolled back in that iteration: its changes "
                            "stay in the in-memory files and are saved", fn.where(fn.blocks[pb]["term"]),
